@@ -50,6 +50,14 @@ func checkC01(c *Ctx) *report.Result {
 	if len(m.Errors) > 0 {
 		return r
 	}
+	// the instruction's effect includes which condition a conditional opcode tests and which
+	// memory cell it accesses: those clauses are decided by the rule sets of C02 / C03, evaluated here
+	r.Rule("F-cond", "conditional opcodes test their documented condition (rule L-cond of C02, evaluated on this tree)")
+	r.Rule("F-mem", "data accesses go to the documented address class with the documented byte order and read-modify-write data flow (rules M-sched, M-order, M-rmw of C03, evaluated on this tree)")
+	adopt(r, checkC02(c), map[string]string{"L-cond": "F-cond"}, "an instruction that tests the wrong flag has the wrong effect on PC/SP/memory for some flag state")
+	adopt(r, checkC03(c), map[string]string{"M-sched": "F-mem", "M-order": "F-mem", "M-rmw": "F-mem"}, "an access to the wrong address or with swapped bytes changes the wrong memory cell")
+	r.Rule("F-carry", "half-carry and carry/borrow at their thresholds (constants and intervals on both sides) for ADD/ADC/SUB/SBC/CP A,r, INC/DEC r, ADD HL,rr, ADD SP,e and LD HL,SP+e")
+	c.checkCarry(r, m)
 	it := c.W.It
 	arch := map[string]bool{"a": true, "b": true, "c": true, "d": true, "e": true, "h": true, "l": true, "sp": true, "pc": true, "ime": true, "halted": true, "haltbug": true, "stopped": true}
 	// scratch bytes: the uint8 cells the fetch routine zeroes at every fetch
@@ -581,4 +589,164 @@ func (c *Ctx) imeLatches(m *Machine) map[string]bool {
 		}
 	}
 	return out
+}
+
+// carryCase is one abstract input class at a carry/borrow threshold with the documented H and C flags.
+type carryCase struct {
+	Op      int    // base-page opcode
+	What    string // register setup in words
+	Set     map[string][2]int64
+	CarryIn int   // -1: leave F symbolic; 0/1: C flag before the instruction
+	Operand int64 // immediate operand byte (-1 none)
+	H, C    int   // documented flag after: 0, 1, or -1 (untouched / not checked)
+}
+
+func carryCases() []carryCase {
+	iv := func(lo, hi int64) [2]int64 { return [2]int64{lo, hi} }
+	k := func(v int64) [2]int64 { return [2]int64{v, v} }
+	var cs []carryCase
+	add := func(op int, what string, set map[string][2]int64, cin int, operand int64, h, c int) {
+		cs = append(cs, carryCase{op, what, set, cin, operand, h, c})
+	}
+	// ADD A,B / ADC A,B
+	for _, op := range []int{0x80, 0x88} {
+		add(op, "A=00, B in 00-0F", map[string][2]int64{"a": k(0), "b": iv(0, 0x0f)}, 0, -1, 0, 0)
+		add(op, "A=01, B=0F", map[string][2]int64{"a": k(1), "b": k(0x0f)}, 0, -1, 1, 0)
+		add(op, "A=08, B=07", map[string][2]int64{"a": k(8), "b": k(7)}, 0, -1, 0, 0)
+		add(op, "A=08, B=08", map[string][2]int64{"a": k(8), "b": k(8)}, 0, -1, 1, 0)
+		add(op, "A=00, B in 00-FF", map[string][2]int64{"a": k(0), "b": iv(0, 0xff)}, 0, -1, -1, 0)
+		add(op, "A=01, B=FF", map[string][2]int64{"a": k(1), "b": k(0xff)}, 0, -1, 1, 1)
+		add(op, "A=80, B in 80-FF", map[string][2]int64{"a": k(0x80), "b": iv(0x80, 0xff)}, 0, -1, -1, 1)
+		add(op, "A=80, B in 00-7F", map[string][2]int64{"a": k(0x80), "b": iv(0, 0x7f)}, 0, -1, -1, 0)
+	}
+	add(0x88, "A=00, B=0F, carry in", map[string][2]int64{"a": k(0), "b": k(0x0f)}, 1, -1, 1, 0)
+	add(0x88, "A=00, B in 00-0E, carry in", map[string][2]int64{"a": k(0), "b": iv(0, 0x0e)}, 1, -1, 0, 0)
+	add(0x88, "A=00, B=FF, carry in", map[string][2]int64{"a": k(0), "b": k(0xff)}, 1, -1, 1, 1)
+	add(0x88, "A=00, B in 00-FE, carry in", map[string][2]int64{"a": k(0), "b": iv(0, 0xfe)}, 1, -1, -1, 0)
+	// SUB B / CP B / SBC A,B
+	for _, op := range []int{0x90, 0xB8, 0x98} {
+		add(op, "A=10, B in 01-0F", map[string][2]int64{"a": k(0x10), "b": iv(1, 0x0f)}, 0, -1, 1, 0)
+		add(op, "A=1F, B in 00-0F", map[string][2]int64{"a": k(0x1f), "b": iv(0, 0x0f)}, 0, -1, 0, 0)
+		add(op, "A=05, B=05", map[string][2]int64{"a": k(5), "b": k(5)}, 0, -1, 0, 0)
+		add(op, "A=05, B=06", map[string][2]int64{"a": k(5), "b": k(6)}, 0, -1, 1, 1)
+		add(op, "A=00, B in 01-FF", map[string][2]int64{"a": k(0), "b": iv(1, 0xff)}, 0, -1, -1, 1)
+		add(op, "A=FF, B in 00-FF", map[string][2]int64{"a": k(0xff), "b": iv(0, 0xff)}, 0, -1, 0, 0)
+		add(op, "A=80, B=80", map[string][2]int64{"a": k(0x80), "b": k(0x80)}, 0, -1, 0, 0)
+		add(op, "A=80, B=81", map[string][2]int64{"a": k(0x80), "b": k(0x81)}, 0, -1, 1, 1)
+	}
+	add(0x98, "A=05, B=04, carry in", map[string][2]int64{"a": k(5), "b": k(4)}, 1, -1, 0, 0)
+	add(0x98, "A=05, B=05, carry in", map[string][2]int64{"a": k(5), "b": k(5)}, 1, -1, 1, 1)
+	add(0x98, "A=80, B=7F, carry in", map[string][2]int64{"a": k(0x80), "b": k(0x7f)}, 1, -1, 1, 0)
+	add(0x98, "A=80, B=80, carry in", map[string][2]int64{"a": k(0x80), "b": k(0x80)}, 1, -1, 1, 1)
+	// INC B / DEC B
+	add(0x04, "B=0F", map[string][2]int64{"b": k(0x0f)}, -1, -1, 1, -1)
+	add(0x04, "B in 00-0E", map[string][2]int64{"b": iv(0, 0x0e)}, -1, -1, 0, -1)
+	add(0x04, "B=FF", map[string][2]int64{"b": k(0xff)}, -1, -1, 1, -1)
+	add(0x05, "B=10", map[string][2]int64{"b": k(0x10)}, -1, -1, 1, -1)
+	add(0x05, "B in 01-0F", map[string][2]int64{"b": iv(1, 0x0f)}, -1, -1, 0, -1)
+	add(0x05, "B=00", map[string][2]int64{"b": k(0)}, -1, -1, 1, -1)
+	// ADD HL,BC
+	hl := func(v int64) (h, l [2]int64) { return k(v >> 8), k(v & 0xff) }
+	{
+		h0, l0 := hl(0x0000)
+		add(0x09, "HL=0000, BC in 0000-0FFF", map[string][2]int64{"h": h0, "l": l0, "b": iv(0, 0x0f), "c": iv(0, 0xff)}, -1, -1, 0, 0)
+		h1, l1 := hl(0x0001)
+		add(0x09, "HL=0001, BC=0FFF", map[string][2]int64{"h": h1, "l": l1, "b": k(0x0f), "c": k(0xff)}, -1, -1, 1, 0)
+		add(0x09, "HL=0000, BC=0FFF", map[string][2]int64{"h": h0, "l": l0, "b": k(0x0f), "c": k(0xff)}, -1, -1, 0, 0)
+		h8, l8 := hl(0x0800)
+		add(0x09, "HL=0800, BC=0800", map[string][2]int64{"h": h8, "l": l8, "b": k(0x08), "c": k(0x00)}, -1, -1, 1, 0)
+		add(0x09, "HL=0800, BC in 0000-07FF", map[string][2]int64{"h": h8, "l": l8, "b": iv(0, 0x07), "c": iv(0, 0xff)}, -1, -1, 0, 0)
+		add(0x09, "HL=0001, BC=FFFF", map[string][2]int64{"h": h1, "l": l1, "b": k(0xff), "c": k(0xff)}, -1, -1, 1, 1)
+		add(0x09, "HL=0000, BC=FFFF", map[string][2]int64{"h": h0, "l": l0, "b": k(0xff), "c": k(0xff)}, -1, -1, 0, 0)
+		hh, lh := hl(0x8000)
+		add(0x09, "HL=8000, BC in 8000-FFFF", map[string][2]int64{"h": hh, "l": lh, "b": iv(0x80, 0xff), "c": iv(0, 0xff)}, -1, -1, -1, 1)
+	}
+	// ADD SP,e / LD HL,SP+e
+	for _, op := range []int{0xE8, 0xF8} {
+		add(op, "SP=00FF, e=01", map[string][2]int64{"sp": k(0x00ff)}, -1, 0x01, 1, 1)
+		add(op, "SP=0000, e=7F", map[string][2]int64{"sp": k(0x0000)}, -1, 0x7f, 0, 0)
+		add(op, "SP=0000, e=F0", map[string][2]int64{"sp": k(0x0000)}, -1, 0xf0, 0, 0)
+		add(op, "SP=0000, e=80", map[string][2]int64{"sp": k(0x0000)}, -1, 0x80, 0, 0)
+		add(op, "SP=0010, e=F0", map[string][2]int64{"sp": k(0x0010)}, -1, 0xf0, 0, 1)
+		add(op, "SP=000F, e=FF", map[string][2]int64{"sp": k(0x000f)}, -1, 0xff, 1, 1)
+		add(op, "SP=0000, e=FF", map[string][2]int64{"sp": k(0x0000)}, -1, 0xff, 0, 0)
+		add(op, "SP=0001, e=FF", map[string][2]int64{"sp": k(0x0001)}, -1, 0xff, 1, 1)
+		add(op, "SP=0008, e=08", map[string][2]int64{"sp": k(0x0008)}, -1, 0x08, 1, 0)
+		add(op, "SP=0008, e=07", map[string][2]int64{"sp": k(0x0008)}, -1, 0x07, 0, 0)
+	}
+	return cs
+}
+
+// checkCarry evaluates rows at carry/borrow thresholds (constants and intervals) and compares H and C.
+func (c *Ctx) checkCarry(r *report.Result, m *Machine) {
+	it := c.W.It
+	for _, cs := range carryCases() {
+		row := m.Base[cs.Op]
+		name := fmt.Sprintf("opcode 0x%02X at %s", cs.Op, cs.What)
+		if row == nil || !row.FetchOK {
+			r.Fail("unresolved", "F-carry", name, "", "row not found")
+			continue
+		}
+		st := it.StateOn(c.W.Generic)
+		for reg, rng := range cs.Set {
+			path := "." + reg
+			w, sg := ai.TypeShape(ai.LeafTypeAt(m.CPU.T, path))
+			if rng[0] == rng[1] {
+				st.SetCell(m.CPU, path, ai.NewConstInt(w, sg, rng[0]))
+			} else {
+				c.symCell(st, m.CPU, path)
+				st.SetCell(m.CPU, path, ai.NarrowInt(c.cellInt(st, m.CPU, path), rng[0], rng[1]))
+			}
+		}
+		if cs.CarryIn >= 0 {
+			f := c.cellInt(st, m.CPU, ".f")
+			st.SetCell(m.CPU, ".f", ai.WithBit(f, 4, cs.CarryIn == 1))
+		}
+		var read ai.Value
+		if cs.Operand >= 0 {
+			read = ai.NewConstInt(8, false, cs.Operand)
+		}
+		ok := true
+		for _, sub := range row.Subs {
+			f, isF := sub.(*ai.Func)
+			if !isF {
+				ok = false
+				break
+			}
+			ev, _ := c.evalCPU(st, f.Fn, nil, f.Bind, read)
+			if ev.Post == nil {
+				ok = false
+				break
+			}
+			st = ev.Post
+		}
+		fv := c.cellInt(st, m.CPU, ".f")
+		detail := "flags afterwards " + ai.ValueString(fv)
+		if ok && fv != nil {
+			for _, fl := range []struct {
+				name string
+				bit  int
+				want int
+			}{{"H", 5, cs.H}, {"C", 4, cs.C}} {
+				if fl.want < 0 {
+					continue
+				}
+				b := fv.Bits[fl.bit]
+				good := (fl.want == 1 && b.K == ai.BOne) || (fl.want == 0 && b.K == ai.BZero)
+				if !good {
+					ok = false
+					detail += fmt.Sprintf("; %s is %s, documented %d", fl.name, b.String(), fl.want)
+				}
+			}
+		} else {
+			ok = false
+		}
+		where := ""
+		if row.Slice != nil {
+			if s, isI := row.Slice.Obj.Site.(ssa.Instruction); isI {
+				where = c.pos(s)
+			}
+		}
+		r.Ob("F-carry", ok, name, where, detail)
+	}
 }
